@@ -325,6 +325,31 @@ pub fn check_block(
         );
         return BlockResult { compared: true, ok: false };
     }
+    // The same block through the three-step API with the tree built by a configuration
+    // that has another decorator: prefixes and widths are those of the rendering one.
+    if w % 3 == 0 {
+        let build = cross_build_cfg(cfg, w as u64 + items.len() as u64);
+        let cr = render_cross(&build, cfg, &input, &[w]);
+        out.evals += 1;
+        out.inc("cross_decorator_renderings");
+        let got = match &cr {
+            Outcome::Ok(v) => v[0].clone(),
+            o => o.clone().map(|_| String::new()),
+        };
+        if got != b {
+            out.violate(
+                format!("{}:tree-built-under-another-decorator:{}", sigpfx, kind.name()),
+                format!(
+                    "{} built under the {} decorator and rendered under this configuration gives {} instead of the one-shot result",
+                    kind.name(),
+                    build.deco.name(),
+                    match &got { Outcome::Ok(t) => format!("{:?}", truncate(t, 80)), o => o.kind() }
+                ),
+                witness(&input, w, cfg, json!({"one_shot": b_lines, "build_config": build.describe()})),
+            );
+            return BlockResult { compared: true, ok: false };
+        }
+    }
     // A list written with line breaks between its tags inside a white-space-preserving
     // context (<pre>): the white space between the items is not an item, so the same
     // markers must appear, one per <li>.  (Only the markers are compared: how the
